@@ -139,6 +139,13 @@ F = [
   "Exp reported Overflow for arguments a hair above a multiple of 23 (the working precision was derived from |x| rounded to a float64): Exp(3611.0000000000000000001) P=41 Emax=100000 returned Infinity",
   {"C12": [ar("exp", ctx(41, 100000, -100000, "down"), dec("36110000000000000000001", -19)), ar("exp", ctx(41, 100000, -100000, "down"), dec("98900000000000004", -14)),
            ar("exp", ctx(5, 1000, -1000, "half_even"), dec("11500000000000000000001", -20))]}),
+ ("D37", "composite operations raise Underflow (and Rounded) with their forced Inexact",
+  "Exp, Ln and Pow returned Inexact|Subnormal without Underflow when their final rounding removed only zeros (Exp(-0.001) P=4 Emin=0 down; Pow(-0.9999999999999, 2) P=14 Emin=0), and Inexact without Rounded (Pow(1, 0.5) P=1)",
+  {"C02": [ar("exp", ctx(4, 4, 0, "down"), dec(1, -3, True), note="composite"), ar("ln", ctx(2, 2, -3, "down"), dec(9999, -4), note="composite"),
+           ar("pow", ctx(14, 14, 0, "down"), dec(9999999999999, -13, True), dec(2)), ar("pow", ctx(1, 1, 0, "down"), dec(1), dec(5, -1), note="composite")]}),
+ ("D38", None,
+  "Pow with a negative integer exponent reports Inexact although the returned value is the exact result, when x**|y| needs more digits than the working precision (Precision+10) but its reciprocal fits: Pow(-0.5, -30) at Precision 10 returns 1073741824 = 2^30 with Inexact|Rounded (context.go integerPower computes x**|y| rounded, then 1/that)",
+  {"C02": [ar("pow", ctx(10, 10, 0, "down"), dec(5, -1, True), dec(30, 0, True))]}),
  ("D36", "integerPower reports the right direction when a negative power leaves the range",
   "Pow with a negative integer exponent reported Underflow when x**|y| underflowed although the result (its reciprocal) overflows: Pow(1.9E-1112, -90) failed with SystemUnderflow|Underflow for a value of 8.2E+100054",
   {"C12": [ar("pow", ctx(1, 100000, -100000, "down"), dec(19, -1113), dec(9, 1, True))]}),
